@@ -1,9 +1,6 @@
 #!/bin/sh
-# Applies every seeded change in /verif/seeded to /repo in turn and runs the quick check of its property (regression of the
-# detection table in DESIGN.md).  /repo must be clean; it is restored after every mutant.
+# Runs the quick check of its property against every seeded change in /verif/seeded (regression of the detection table in
+# DESIGN.md).  Each run happens in its own scratch worktree (tools/try_mutant.sh), four at a time; /repo and /verif/evidence
+# are not touched.
 cd "$(dirname "$0")/.." || exit 9
-for d in seeded/*/; do
-  id=$(basename $d); prop=${id%%-*}
-  out=$(tools/try_mutant.sh /verif/seeded/$id $prop quick 2>&1 | grep "^check\|^demo" | tr '\n' ' ')
-  echo "$id: $out"
-done
+ls seeded | xargs -P ${JOBS:-4} -I{} sh -c 'id={}; prop=${id%%-*}; out=$(tools/try_mutant.sh /verif/seeded/$id $prop quick 2>&1 | grep "^check\|^demo" | tr "\n" " "); echo "$id: $out"'
